@@ -247,12 +247,13 @@ type acceptResult struct {
 }
 
 type memListener struct {
-	mu      sync.Mutex
-	ch      chan acceptResult
-	closed  chan struct{}
-	once    sync.Once
-	accepts int
-	closes  int
+	mu              sync.Mutex
+	ch              chan acceptResult
+	closed          chan struct{}
+	once            sync.Once
+	accepts         int
+	lastSeenAccepts int
+	closes          int
 	// optional gates for forced schedules
 	acceptReturnGate *gate // Accept has dequeued a connection, waits before returning it
 	closeGate        *gate // Close waits before taking effect
